@@ -148,6 +148,8 @@ def run_case(c, d):
     else:
         x = np.cos(2 * np.pi * k * n / NFFT + ph) + sigma * gen.noise(rng, N, False)
     x = x * 10.0 ** d.get('amp10', 0)             # the axis clauses do not depend on the amplitude of the record
+    if d.get('i', 0) % 7 in (5, 6):
+        x = gen.variant(x, gen.LAYOUTS[d['i'] % 7 - 5])       # handed over as a non-contiguous view / read-only array
     feats = {'cls': cls, 'cplx': cplx, 'nfft_odd': bool(NFFT % 2), 'nfft_kind': 'None' if kind is None else
              ('nextpow2' if kind == 'nextpow2' else 'int')}
     try:
